@@ -32,10 +32,10 @@ prop('C02', ['K5', 'K6', 'NS1', 'K2', 'D2', 'T2', 'M7', 'K4'],
      'discipline (K4).',
      ['equal dicts flatten equally for all inputs', 'None-removal law', 'predicate idempotence'])
 
-prop('C03', ['K1', 'K3', 'K4', 'K5', 'K7', 'K8', 'M7', 'F1', 'F7', 'F10', 'T4', 'T2', 'NS1'],
+prop('C03', ['K1', 'K3', 'K4', 'K5', 'K7', 'K8', 'M7', 'F1', 'F14', 'F7', 'F10', 'T4', 'T2', 'NS1'],
      'Sibling traversals agree, decided on the 5 x 11 arm matrix: per kind the same accessor on '
      'the same container class, the same key pipeline, the same arity source (K3); the same '
-     'effective visiting order (K4), where a traversal that asks the shared key sort for another order gets it after every stage of the sort (T2) and every traversal hands its options down its own recursion unchanged (NS1); predicate first everywhere (K5); the same validations of a '
+     'effective visiting order (K4), where a traversal that asks the shared key sort for another order gets it after every stage of the sort (T2) and every traversal hands its options down its own recursion unchanged (NS1) and every public entry point has the same option defaults (F14); predicate first everywhere (K5); the same validations of a '
      'custom flatten result with the same exception type at all five call sites (K7); the same '
      'depth discipline (K8); the Python wrappers are thin and forward the options unchanged, the '
      'reductions are folds over tree_leaves / tree_iter (F1, F7, F10); Python one-level handlers '
@@ -54,7 +54,7 @@ prop('C04', ['T5', 'N1', 'N2', 'N3', 'N4', 'F8', 'M4', 'K4'],
      'node_entries (M4); the backwards walkers reverse their result (K4).',
      ['accessor(tree) is the leaf', 'prefix-freeness of paths', 'codify/eval agreement'])
 
-prop('C05', ['F1', 'F2', 'F3', 'F4', 'F11', 'W2', 'K3', 'M7', 'P1', 'P4', 'M2', 'M3'],
+prop('C05', ['F1', 'F14', 'F2', 'F3', 'F4', 'F11', 'W2', 'K3', 'M7', 'P1', 'P4', 'M2', 'M3'],
      'tree_map family, structural part: options forwarded unchanged (F1); the six map functions, '
      'three transpose-map and three broadcast-map functions are one normal form modulo the '
      'declared variation points, with the extra iterable first (F2); every rest is matched by an '
@@ -101,7 +101,7 @@ prop('C08', ['I3', 'M5', 'M5b', 'M6', 'F9', 'F12', 'W3', 'T6', 'K1', 'K3', 'M7',
      'constructor enumerates children, keys and metadata exactly like flatten (K3, M7, M1).',
      ['count identities', 'transform/compose algebra', 'repr text'])
 
-prop('C09', ['M4', 'M5b', 'P1', 'P4', 'K4', 'F1', 'F2', 'F11', 'F13', 'M2'],
+prop('C09', ['M4', 'M5b', 'P1', 'P4', 'K4', 'F1', 'F14', 'F2', 'F11', 'F13', 'M2'],
      'Broadcasting, structural part: the merge walker copies every payload field of a node (M4); '
      'the result namespace comes from both operands (M5b); '
      'its kind x kind compatibility equals the prefix matchers\' (P1) and dict children are paired '
@@ -112,7 +112,7 @@ prop('C09', ['M4', 'M5b', 'P1', 'P4', 'K4', 'F1', 'F2', 'F11', 'F13', 'M2'],
      'broadcast trees are rebuilt by MakeNode (M2).',
      ['least upper bound', 'symmetry', 'idempotence'])
 
-prop('C10', ['F6', 'F2', 'F1', 'P1', 'M2', 'M3'],
+prop('C10', ['F6', 'F2', 'F1', 'F14', 'P1', 'M2', 'M3'],
      'Transposition, structural part: the four documented rejections dominate the regrouping; '
      'chunk width = stride = inner_size over m*n leaves; zip(*) swaps the dimensions and '
      'outer.unflatten / inner.unflatten consume the right side (F6); the with_path / with_accessor '
@@ -201,7 +201,7 @@ prop('C19', ['DC1', 'DC2', 'DC3', 'DC4', 'DC5', 'G4', 'F8'],
      'class is processed by dataclasses.dataclass exactly once (DC5); eq/hash agreement (F8).',
      ['all layouts and values', '__post_init__ behaviour'])
 
-prop('C20', ['R1', 'R2', 'R3', 'R4', 'F1'],
+prop('C20', ['R1', 'R2', 'R3', 'R4', 'F1', 'F14'],
      'Ravel: each partial binds exactly the leading parameters of its target (R1); shape guard and '
      '(mixed-dtype) dtype guard dominate the split, chunks/shapes/dtypes are joined by the strict '
      'zip (R2); the three backends have the same structure (R3); the numpy common dtype is '
